@@ -672,6 +672,11 @@ class Fn:
             for pt in parts:
                 for nm, op, rhs, decl in assignments(pt):
                     self.defs.setdefault(nm, []).append((i, op, rhs, decl))
+            if s[0] in ("if", "while"):
+                # `if (++n > m)`: n is incremented when the test is made (op '++cond', at the position of the test)
+                for j, t in enumerate(s[1][:-1]):
+                    if t in ("++", "--") and IDENT.match(s[1][j + 1]) and not (j and (IDENT.match(s[1][j - 1]) or s[1][j - 1] in (")", "]"))):
+                        self.defs.setdefault(s[1][j + 1], []).append((i, t + "cond", None, False))
 
     def written_between(self, names, p, q) -> bool:
         return any(p < i < q for nm in names for i, op, rhs, decl in self.defs.get(nm, ()))
